@@ -201,6 +201,11 @@ type seat struct {
 
 	// for file edits: the filesystem of an engine of the program's own, the unrevised program
 	// and what the filesystem currently holds
+	// long-lived Template values for the keep-* entries, one per data variant, and the data
+	// each was filled with
+	keep     map[int]vuego.Template
+	keepData map[int]map[string]any
+
 	fs      *memfs.FS
 	base    cat.Program
 	rev, mt int
@@ -227,7 +232,41 @@ func serialise(nodes []*html.Node) string {
 }
 
 // call renders the seat's program through entry with data d (built by the caller).
+// kept returns the seat's long-lived Template value for data variant v (created with dm at the
+// first call) and verifies that the data it was filled with is still what was passed then.
+func (s *seat) kept(v int, dm map[string]any) (vuego.Template, error) {
+	if s.keep == nil {
+		s.keep, s.keepData = map[int]vuego.Template{}, map[int]map[string]any{}
+	}
+	if t, ok := s.keep[v]; ok {
+		if want := goData(s.base0(), v); !reflect.DeepEqual(s.keepData[v], want) {
+			return nil, fmt.Errorf("the data the long-lived Template was filled with was modified by a render: %s", dataDiff(s.keepData[v], want))
+		}
+		return t, nil
+	}
+	var d any = dm
+	if dm == nil {
+		d = nil
+	}
+	t := s.eng.root.New().Fill(d)
+	s.keep[v], s.keepData[v] = t, dm
+	return t, nil
+}
+
+// base0 is the unrevised program of the seat (seats without edits have no base set).
+func (s *seat) base0() cat.Program {
+	if s.base.Name != "" {
+		return s.base
+	}
+	return s.p
+}
+
 func (s *seat) call(entry string, dm map[string]any) (result, error) {
+	return s.callVar(entry, dm, 0)
+}
+
+// callVar: v names the data variant dm was built for (needed by the keep-* entries only).
+func (s *seat) callVar(entry string, dm map[string]any, v int) (result, error) {
 	var d any = dm
 	if dm == nil {
 		d = nil // "no data": an untyped nil, not a nil map
@@ -247,6 +286,21 @@ func (s *seat) call(entry string, dm map[string]any) (result, error) {
 		err = s.eng.root.New().Fill(d).RenderByte(ctx, &buf, []byte(body))
 	case "reader":
 		err = s.eng.root.New().Fill(d).RenderReader(ctx, &buf, strings.NewReader(body))
+	case eKeepString, eKeepReader, eKeepNew, eKeepLoad:
+		keep, kerr := s.kept(v, dm)
+		if kerr != nil {
+			return result{}, kerr
+		}
+		switch entry {
+		case eKeepString:
+			err = keep.RenderString(ctx, &buf, body)
+		case eKeepReader:
+			err = keep.RenderReader(ctx, &buf, strings.NewReader(body))
+		case eKeepNew:
+			err = keep.New().RenderString(ctx, &buf, body)
+		case eKeepLoad:
+			err = keep.Load(s.page).Render(ctx, &buf)
+		}
 	case eAssign:
 		t := s.eng.root.Load(s.page)
 		keys := make([]string, 0, len(dm))
@@ -291,7 +345,7 @@ func freshDeny(p cat.Program, entry string, v int, deny string) (result, error) 
 	fsys := p.FS()
 	denyFiles(fsys, p, deny, fs.ErrPermission)
 	st := &seat{p: p, page: "page.vuego", eng: newEngineFor(p, fsys, []string{entry})}
-	return st.call(entry, goData(p, v))
+	return st.callVar(entry, goData(p, v), v)
 }
 
 // ---- reference table: (program, entry, variant) rendered alone on a fresh engine
@@ -749,7 +803,7 @@ func check(c Case) error {
 		d := goData(pl.p, st.Var)
 		for r := 0; r < st.k(); r++ {
 			where := fmt.Sprintf("probe %s/%s/v%d render %d of %d on one engine", st.Prog, st.Entry, st.Var, r+1, st.k())
-			got, err := w.seats[st.Prog].call(st.Entry, d)
+			got, err := w.seats[st.Prog].callVar(st.Entry, d, st.Var)
 			if err != nil {
 				return fmt.Errorf("%s: %w", where, err)
 			}
@@ -806,7 +860,7 @@ func check(c Case) error {
 			if i > 0 {
 				where += fmt.Sprintf(", after %s/%s", c.Steps[i-1].Prog, c.Steps[i-1].Entry)
 			}
-			got, err := w.seats[st.Prog].call(st.Entry, d)
+			got, err := w.seats[st.Prog].callVar(st.Entry, d, st.Var)
 			if err != nil {
 				return fmt.Errorf("%s: %w", where, err)
 			}
@@ -897,6 +951,9 @@ func classify(c Case) (bool, []string) {
 			continue
 		}
 		set["entry="+st.Entry] = true
+		if isKeep(st.Entry) {
+			set["long-lived-template-value"] = true
+		}
 		if _, inline := lookupDef(c, st.Prog); inline && st.Prog == "gen" {
 			set["generated-program"] = true
 			for _, el := range strings.Split(p.Files["page.vuego"], "<p ")[1:] {
@@ -1040,7 +1097,18 @@ func programPool() []string {
 	return out
 }
 
+// entriesOf lists every entry applicable to p: the nine base entries and the keep-* entries.
 func entriesOf(p cat.Program) []string {
+	out := baseEntriesOf(p)
+	for _, e := range keepEntries {
+		if applicable(p, e) {
+			out = append(out, e)
+		}
+	}
+	return out
+}
+
+func baseEntriesOf(p cat.Program) []string {
 	var out []string
 	for _, e := range allEntries {
 		if applicable(p, e) {
@@ -1209,7 +1277,7 @@ type combo struct {
 func combos() []combo {
 	var out []combo
 	for _, p := range named {
-		for _, e := range entriesOf(p) {
+		for _, e := range baseEntriesOf(p) {
 			out = append(out, combo{p, e})
 		}
 	}
@@ -1276,6 +1344,21 @@ func TestProp(t *testing.T) {
 			}
 		} else {
 			each("variants", Case{Steps: []Step{st(vNil, 3), st(0, 2), st(vNil, 1), st(0, 1)}})
+		}
+	}
+	// ONE long-lived Template value per program: inline renders directly on it (twice in a row),
+	// then children derived from it (New, Load without Fill), then inline again; the same with a
+	// second Template value filled with other data in between
+	for _, p := range named {
+		st := func(e string, v, k int) Step { return Step{Prog: p.Name, Entry: e, Var: v, K: k} }
+		if applicable(p, eKeepString) {
+			each("kept", Case{Steps: []Step{st(eKeepString, 0, 2), st(eKeepNew, 0, 1), st(eKeepLoad, 0, 1), st(eKeepReader, 0, 2), st(eKeepString, 0, 1), st("string", 0, 1)}})
+			if len(p.Data) > 0 {
+				each("kept", Case{Steps: []Step{st(eKeepReader, 0, 1), st(eKeepString, 1, 2), st(eKeepNew, 1, 1), st(eKeepString, 0, 1), st(eKeepLoad, 1, 1), st(eKeepNew, 0, 1)}})
+				each("kept", Case{Shared: sharedSet()[p.Name], Steps: []Step{st(eKeepNew, 0, 1), st(eKeepString, 0, 3), st(eKeepNew, 0, 1), st(eKeepLoad, 0, 2)}})
+			}
+		} else {
+			each("kept", Case{Steps: []Step{st(eKeepLoad, 0, 2), st("load", 0, 1), st(eKeepLoad, 0, 1)}})
 		}
 	}
 	// file edits between renders on one engine: forward, then twice BACKWARDS in mtime (the
